@@ -215,3 +215,106 @@ def stmt_of(node):
     while n is not None and not isinstance(n, ast.stmt):
         n = getattr(n, "_parent", None)
     return n
+
+
+def module_const(tree, name):
+    """value node of a module-level `NAME = <expr>` / `NAME: T = <expr>` binding, or None"""
+    for s in getattr(tree, "body", []):
+        if isinstance(s, ast.Assign) and any(isinstance(t, ast.Name) and t.id == name for t in s.targets):
+            return s.value
+        if isinstance(s, ast.AnnAssign) and isinstance(s.target, ast.Name) and s.target.id == name and s.value is not None:
+            return s.value
+    return None
+
+
+def regex_call(call, tree):
+    """If `call` applies a regular expression, return (method, pattern string, subject args): handles re.search(PAT, s), re.sub(PAT, r, s),
+    NAME.search(s) / NAME.sub(r, s) with NAME = re.compile(PAT) at module level, and PAT given as a module-level string constant."""
+    if not isinstance(call, ast.Call):
+        return None
+    f = call.func
+    def pat_of(node):
+        if isinstance(node, ast.Constant) and isinstance(node.value, str):
+            return node.value
+        if isinstance(node, ast.Name):
+            v = module_const(tree, node.id)
+            if isinstance(v, ast.Constant) and isinstance(v.value, str):
+                return v.value
+        return None
+    if isinstance(f, ast.Attribute) and isinstance(f.value, ast.Name) and f.value.id == "re" and f.attr in ("search", "match", "fullmatch", "sub", "findall", "split") and call.args:
+        p = pat_of(call.args[0])
+        if p is not None:
+            return (f.attr, p, list(call.args[1:]))
+    if isinstance(f, ast.Attribute) and isinstance(f.value, ast.Name) and f.attr in ("search", "match", "fullmatch", "sub", "findall", "split"):
+        v = module_const(tree, f.value.id)
+        if isinstance(v, ast.Call) and src(v.func) in ("re.compile", "compile") and v.args:
+            p = pat_of(v.args[0])
+            if p is not None:
+                return (f.attr, p, list(call.args))
+    return None
+
+
+def local_or_module_literal(fn, tree, name):
+    """the list/tuple/set literal a Name denotes: assigned once in the function, or at module level"""
+    cands = []
+    if fn is not None:
+        for n in ast.walk(fn):
+            if isinstance(n, ast.Assign) and any(isinstance(t, ast.Name) and t.id == name for t in n.targets):
+                cands.append(n.value)
+    if not cands:
+        v = module_const(tree, name)
+        if v is not None:
+            cands.append(v)
+    if len(cands) == 1 and isinstance(cands[0], (ast.List, ast.Tuple, ast.Set)):
+        return cands[0]
+    return None
+
+
+def inline_temporaries(expr, fn, upto_line=None, depth=3):
+    """Source text of `expr` with every Name that is a single-assignment local temporary of `fn` (assigned exactly once, from an expression, before `upto_line`)
+    replaced by the text of its value, recursively (bounded).  Used so that a rule about `a.b[c.d]` also recognises `t1 = a.b; t2 = c.d; t1[t2]`."""
+    assigns = {}
+    counts = {}
+    for n in ast.walk(fn):
+        if isinstance(n, ast.Assign) and len(n.targets) == 1 and isinstance(n.targets[0], ast.Name):
+            counts[n.targets[0].id] = counts.get(n.targets[0].id, 0) + 1
+            assigns[n.targets[0].id] = n
+        elif isinstance(n, (ast.AugAssign, ast.AnnAssign)) and isinstance(getattr(n, "target", None), ast.Name):
+            counts[n.target.id] = counts.get(n.target.id, 0) + 2
+        elif isinstance(n, (ast.For, ast.comprehension)):
+            for t in ast.walk(n.target):
+                if isinstance(t, ast.Name):
+                    counts[t.id] = counts.get(t.id, 0) + 2
+    params = {a.arg for a in fn.args.args + fn.args.kwonlyargs} if hasattr(fn, "args") else set()
+    # a temporary may be assigned once per branch (same name, several sites): inline only if ALL its values have the same text
+    def value_text(name, line):
+        sites = [n for n in ast.walk(fn) if isinstance(n, ast.Assign) and len(n.targets) == 1 and isinstance(n.targets[0], ast.Name) and n.targets[0].id == name]
+        if not sites or name in params:
+            return None
+        if any(isinstance(n, (ast.AugAssign,)) and getattr(n.target, "id", None) == name for n in ast.walk(fn)):
+            return None
+        before = [n for n in sites if line is None or n.lineno <= line]
+        if not before:
+            return None
+        nearest = max(before, key=lambda n: n.lineno)
+        return nearest.value
+
+    def rec(node, d, line):
+        if d <= 0:
+            return src(node)
+        if isinstance(node, ast.Name):
+            v = value_text(node.id, line)
+            if v is not None and not isinstance(v, (ast.Constant,)) and not any(isinstance(x, ast.Name) and x.id == node.id for x in ast.walk(v)):
+                return "(" + rec(v, d - 1, getattr(v, "lineno", line)) + ")" if not isinstance(v, (ast.Name, ast.Attribute, ast.Subscript, ast.Call)) else rec(v, d - 1, getattr(v, "lineno", line))
+            return node.id
+        if isinstance(node, ast.Attribute):
+            return rec(node.value, d, line) + "." + node.attr
+        if isinstance(node, ast.Subscript):
+            return rec(node.value, d, line) + "[" + rec(node.slice, d, line) + "]"
+        if isinstance(node, ast.BinOp):
+            ops = {ast.Add: "+", ast.Sub: "-", ast.Mult: "*"}
+            return rec(node.left, d, line) + " " + ops.get(type(node.op), "?") + " " + rec(node.right, d, line)
+        if isinstance(node, ast.Call):
+            return rec(node.func, d, line) + "(" + ", ".join([rec(a, d, line) for a in node.args] + ["%s=%s" % (k.arg, rec(k.value, d, line)) for k in node.keywords]) + ")"
+        return src(node)
+    return rec(expr, depth, upto_line if upto_line is not None else getattr(expr, "lineno", None))
